@@ -262,7 +262,7 @@ def r4(F, R):
         R.check(ex.dominates(s_d, fin_ev[0][0]), "leftovers-closed-before-finished", s_d, "leftover brackets are closed before run-Finished",
                 "run-Finished can be emitted without closing the leftover feature/rule brackets first")
         # its result is sent
-        sends = [(s, t) for s, t in ex.calls() if F.callee_body(t) is not None and any(True for _ in roles.sends(F, [F.callee_body(t)]))]
+        sends = [(s, t) for s, t in ex.calls() if F.callee_body(t) is not None and roles.reaches_send(F, F.callee_body(t))]
         sent = []
         for s, t in sends:
             al = op_local(t["args"][1]) if len(t["args"]) > 1 else None
